@@ -1,6 +1,7 @@
 """C12 - results do not depend on the completion order of asynchronous evaluators; concurrent evaluations see only their own data."""
 
 import asyncio
+import sys
 from itertools import product
 
 from vf import evaluators as E
@@ -16,6 +17,7 @@ from ahbicht.content_evaluation.fc_evaluators import text_to_be_evaluated_by_for
 from ahbicht.expressions.ahb_expression_evaluation import evaluate_ahb_expression_tree
 from ahbicht.expressions.expression_resolver import parse_expression_including_unresolved_subexpressions
 
+_PROCESS_RECURSION_LIMIT = sys.getrecursionlimit()
 STATES = "FUK"
 EXACT = G.Style(p_redundant=0.0, flat_runs=0.0)  # every same-operator child is bracketed: the parse is exactly the generator's AST
 PKG_NAMES = ["1P", "2P", "3P"]
@@ -153,6 +155,62 @@ async def check_isolation(ctx, case):
                 return
     if sc.max_parked >= 2:
         ctx.nontrivial(["isolation", case["s"], k])
+
+
+def deep_tree(levels: int, keys):
+    """the tree of 'Muss [k1] U [k2] U ...' with `levels` nested and-compositions, built by hand (as it may come out of the JSON schema)"""
+    from lark import Token, Tree
+
+    def cond(k):
+        return Tree(Token("RULE", "condition"), [Token("CONDITION_KEY", k)])
+
+    node = cond(keys[0])
+    for i in range(levels):
+        node = Tree("and_composition", [node, cond(keys[(i + 1) % len(keys)])])
+    return Tree(Token("RULE", "ahb_expression"), [Tree("single_requirement_indicator_expression", [Token("MODAL_MARK", "Muss"), node])])
+
+
+async def check_deep_tree_isolation(ctx, case):
+    """a very deep tree evaluated next to an ordinary evaluation that is pending at the same time: whatever the deep evaluation ends
+    with on its own (a result, or RecursionError if the interpreter's limit does not suffice), it ends with the same when it has
+    company - under every completion order (interpreter-wide settings are shared state between concurrent evaluations)"""
+    ctx.set_case("deep-tree-isolation", case)
+    rng = ctx.case_rng(case)
+    keys = ["1", "3"]
+    rc = {"1": "F", "2": "F", "3": "F", "4": "U"}
+
+    async def deep(world):
+        E.set_world(world)
+        return await evaluate_ahb_expression_tree(deep_tree(case["levels"], keys))
+
+    async def ordinary(world):
+        E.set_world(world)
+        tree = await parse_expression_including_unresolved_subexpressions(case["s"])
+        return await evaluate_ahb_expression_tree(tree)
+
+    # every experiment starts from the interpreter settings the process had when the check started (independent experiments)
+    sys.setrecursionlimit(_PROCESS_RECURSION_LIMIT)
+    alone = summarise(await sched.run_under(None, lambda: deep(E.World("deep", rc=rc))))
+    for chooser in (sched.FifoChooser(), sched.LifoChooser(), sched.RandomChooser(rng), sched.RandomChooser(rng)):
+        for first in ("ordinary", "deep"):
+            sys.setrecursionlimit(_PROCESS_RECURSION_LIMIT)
+            async def both(first=first):
+                order = [deep(E.World("deep", rc=rc)), ordinary(E.World("ordinary", rc=rc))]
+                if first == "ordinary":
+                    order.reverse()
+                tasks = [asyncio.ensure_future(c) for c in order]
+                res = await asyncio.gather(*tasks, return_exceptions=True)
+                return res[0] if first == "deep" else res[1]
+
+            sc = sched.Sched(chooser)
+            out = await sched.run_under(sc, both)
+            ctx.evaluation(2)
+            ctx.count("deep_tree_isolation_runs")
+            got = ("exc:" + type(out[1]).__name__) if out[0] != "ok" else (("exc:" + type(out[1]).__name__) if isinstance(out[1], BaseException) else "ok:" + repr(out[1]))
+            if got != alone:
+                ctx.violation("context-leak", f"a tree of {case['levels']} nested and-compositions evaluates to {alone[:200]} on its own and to {got[:200]} while an evaluation of {case['s']!r} is pending beside it ({first} started first, release order {[str(x) for x in sc.order][:8]})")
+                return
+    ctx.nontrivial(["deep-tree", case["levels"], case["s"]])
 
 
 async def check_package_tickets(ctx, case):
@@ -519,6 +577,8 @@ async def run(ctx):
             await check_failure_isolation(ctx, gen_failure_case(rng))
         for i in range(ctx.budget(150, 8_000)):
             await check_package_tickets(ctx, gen_ticket_case(rng))
+        for i in range(ctx.budget(6, 60)):
+            await check_deep_tree_isolation(ctx, {"levels": rng.choice([150, 300, 600, 900]), "s": rng.choice(["Muss [2]", "Muss [1] U [3] Kann [4]", "X [4] O [2]"])})
         for i in range(ctx.budget(100, 5_000)):
             for _ in range(50):
                 case = gen_case(rng)
@@ -550,6 +610,8 @@ async def replay(ctx, phase, case):
             await check_orders(ctx, case)
         elif phase == "isolation":
             await check_isolation(ctx, case)
+        elif phase == "deep-tree-isolation":
+            await check_deep_tree_isolation(ctx, case)
         elif phase == "package-tickets":
             await check_package_tickets(ctx, case)
         elif phase == "isolation-shipped":
